@@ -156,9 +156,13 @@ func (s *Sel) Wait() int {
 	t := sim.self("select@" + s.site)
 	sim.yield(s.site)
 	order := sim.selr.Perm(n)
-	if sim.cfg.Policy == "seq" {
+	if sim.cfg.Policy == "seq" || sim.cfg.SelectOrder == "source" {
 		for i := range order {
 			order[i] = i
+		}
+	} else if sim.cfg.SelectOrder == "reverse" {
+		for i := range order {
+			order[i] = n - 1 - i
 		}
 	}
 	// probe: how many cases are ready (buffered receive side only, conservative)
